@@ -253,7 +253,15 @@ pub fn reference_for(cache: &RefCache, job: &Job) -> Option<RefProgram> {
         },
         _ => None,
     };
-    cache.lock().unwrap().insert(key, value.clone());
+    {
+        // Generated shaders are practically unique per run: keep the table small (the batch
+        // workers fork per run, and a fork pays for every page of the parent).
+        let mut table = cache.lock().unwrap();
+        if table.len() >= 256 {
+            table.retain(|job, _| !matches!(job.shader, ShaderRef::Gen { .. }));
+        }
+        table.insert(key, value.clone());
+    }
     value
 }
 
@@ -1858,7 +1866,7 @@ pub fn main(tier: Tier) -> i32 {
         .and_then(|s| s.parse().ok())
         .unwrap_or(match tier {
             Tier::Quick => 4000,
-            Tier::Thorough => 1_500_000,
+            Tier::Thorough => 1_000_000,
         });
     let random = match run_batch("rnd", seed, n_random) {
         Ok(t) => t,
